@@ -365,6 +365,8 @@ def _trunc_nodes():
         [('page', ':first', ['margin:0 1px', 'x:a'], [('top-left', ['x:a'])]), st2],
         [('import', 'x.css', 'string', ['print'], None), ('namespace', 'p', 'http://p', 'string'), ('style', ['p|a'], ['x:a', 'color:#f00']), ('comment', 'k'), st2],
         [('font-face', ['font-family:a,b', 'unicode-range:U+1-FF']), ('unknown', '{'), st1],
+        # brackets of different kinds open inside an unknown at-rule
+        [st1, ('unknown', '[')],
         # blocks inside blocks: the end of input closes all of them
         [('media', ['print'], [('style', ['a'], ['color:red']), ('media', ['not tv'], [('style', ['a b'], ['x:a', 'color:#f00']), ('style', ['a'], ['x:a'])]),
                                ('style', ['a>b'], ['x:a'])]), st2],
@@ -397,6 +399,62 @@ def _spelling(node, which):
 _TEXT = [None]
 
 
+def _closers(prefix):
+    """what the end of input has to supply for `prefix`: the end of an open comment or string, then the closers of the open brackets,
+    innermost first.  None: the cut is behind a backslash (what follows would be escaped)."""
+    stack, i, n = [], 0, len(prefix)
+    pairs = {'{': '}', '[': ']', '(': ')'}
+    while i < n:
+        c = prefix[i]
+        if c == '\\':
+            if i + 1 >= n:
+                return None
+            i += 2
+            continue
+        if prefix.startswith('/*', i):
+            j = prefix.find('*/', i + 2)
+            if j < 0:
+                return '*/' + ''.join(reversed(stack))
+            i = j + 2
+            continue
+        if c in '"\'':
+            j = i + 1
+            while j < n and prefix[j] != c:
+                j += 2 if prefix[j] == '\\' else 1
+            if j >= n:
+                return None if j > n else c + ''.join(reversed(stack))
+            i = j + 1
+            continue
+        if c in pairs:
+            stack.append(pairs[c])
+        elif stack and c == stack[-1]:
+            stack.pop()
+        i += 1
+    return ''.join(reversed(stack))
+
+
+def closed_clause(res, case, prefix):
+    """constructs left open at the end of the input are closed there: whatever is kept of the cut construct, the serialisation of the
+    DOM has every bracket, string and comment closed, innermost first"""
+    if not _closers(prefix):
+        return
+    res.clauses['C04.truncation.closed'] += 1
+    try:
+        with guard.watchdog(10):
+            with guard.collect_log():
+                sheet = cssutils.CSSParser(fetcher=lambda u: None).parseString(prefix)
+                cssutils.ser.prefs.keepEmptyRules = True
+                out = sheet.cssText.decode('utf-8')
+    except Exception:
+        return  # (crashes and timeouts are judged by the caller)
+    finally:
+        cssutils.ser.prefs.useDefaults()
+    left = _closers(out)
+    if left != '':
+        res.violation('C04.truncation', 'open-constructs-not-closed-innermost-first|cut-inside-brackets=' + ''.join(sorted(set(_closers(prefix)) & set('}])'))),
+                      dict(case, serialised=out[-200:]), 'every bracket closed, properly nested', {'still open / mismatched': left}, size=len(prefix))
+
+
 def run_truncation(res, ti, which):
     node = c02.build_sheet(TRUNC[ti])
     dev = _spelling(node, which)
@@ -423,6 +481,7 @@ def run_truncation(res, ti, which):
             res.violation('C04.truncation', guard.crash_site(e), case, 'a DOM', repr(e)[:300], size=cut)
             continue
         log_dependence(res, 'C04.truncation', case, 'truncation')
+        closed_clause(res, case, prefix)
         got = strip_unknown_top(got)
         # complete rules: those whose end mark is <= cut
         n_complete = sum(1 for off in rule_ends if off <= cut)
